@@ -103,7 +103,16 @@ def cli_case(args):
             ws.write(w, name, bytes.fromhex(job['a']))
         ws.write(w, 'patches/p1.patch', patch)
         opts = ' -p%d' % job['strip'] + (' -R' if job['rev'] else '')
-        ws.write(w, 'series', ('p1.patch' + opts + '\n').encode())
+        series = 'p1.patch' + opts + '\n'
+        applied = b'p1.patch\n'
+        if job['dialect'] == 'orig' and job['id'] % 2:
+            # the .orig file of the header really exists and an earlier patch of the same push deletes it: what the
+            # push has in memory decides which name is patched, not what is still on disk
+            ws.write(w, name + '.orig', b'left over\n')
+            ws.write(w, 'patches/p0.patch', b'--- a/%s.orig\n+++ /dev/null\n@@ -1 +0,0 @@\n-left over\n' % name.encode())
+            series = 'p0.patch\n' + series
+            applied = b'p0.patch\np1.patch\n'
+        ws.write(w, 'series', series.encode())
         rc, so, se = ws.push(w, ['-a', '-q', '--threads', threads] + (['--mmap'] if (job['id'] // 2) % 2 else []), via_d=(job['id'] // 3) % 2 == 0)
         snap = ws.snapshot(w)
         got = snap.get(name, (None,))[0]
@@ -115,7 +124,7 @@ def cli_case(args):
         extra = [p for p in snap if p != name and not p.startswith('.pc') and not p.endswith('/')]
         if extra:
             return 'unexpected files: %s' % extra
-        if snap.get('.pc/applied-patches', (b'',))[0] != b'p1.patch\n':
+        if snap.get('.pc/applied-patches', (b'',))[0] != applied:
             return 'applied-patches not recorded'
         return None
     finally:
